@@ -10,7 +10,7 @@ import Refine.Model.Cavity2
 
     `refdrv cavity2 replay` reads the records a hooked real `ref_cavity_pass` / `ref_collapse_pass` / `ref_adapt_pass`
     printed at every `cavity_replace` begin / accept: it rebuilds the local grid and the cavity, requires the state
-    `visible`, both manifold verifications, the conformity ledger and `faceVisible` on every face that gets a tet, runs
+    `visible`, both manifold verifications, the certificate `certOk` (listed cells live, faces non-degenerate, conformity ledger) and `faceVisible` on every face that gets a tet, runs
     `Cavity.replace` and compares the resulting stars with the accept record. -/
 namespace Drivers.Cavity2
 open Drivers.Proto Refine Refine.Model.Cavity Refine.Model.Cavity2 Refine.Model.Geom
@@ -104,6 +104,7 @@ def step (s : DSt) (line : String) : DSt × String :=
   match words line with
   | ["reset"] => (initSt false, "ok")
   | ["reset", t] => (initSt (t == "twod"), "ok")
+  | ["note", _] => (s, "ok")
   | ["node", x, y, z] =>
     match parseF? x, parseF? y, parseF? z with
     | some x, some y, some z =>
@@ -202,7 +203,7 @@ def step (s : DSt) (line : String) : DSt × String :=
     (s, s!"{r.1.name} {fmtF r.2.1} {fmtF r.2.2}")
   | ["normdev"] =>
     if !(cavNodesOk s) then (s, "bad-op") else (s, normdevOp s)
-  | ["ledger"] => (s, s!"ok {b01 (ledgerOkAt s.g s.c)}")
+  | ["ledger"] => (s, s!"ok {b01 (ledgerOkAt s.g s.c)} {b01 (certOk s.g s.c)}")
   | ["node23", a, b] =>
     match parseInts? [a, b] with
     | some [a, b] =>
@@ -322,11 +323,11 @@ def replayBegin (r : Rec) : String × Option Expect :=
     if vs.1 ≠ .ok ∨ vs.2.state ≠ .visible then (s!"bad begin {tag}: verify_seg_manifold {vs.1.name} {vs.2.state.code}", none) else
     if (listedTets g c).length ≠ c.tetList.length ∨ (listedTris g c).length ≠ c.triList.length then
       (s!"bad begin {tag}: a listed cell is not in the dumped stars", none) else
-    let ledger := ledgerOkAt g c
+    let ledger := certOk g c
     let notVis := (c.validFaces.filter fun f => !(f.has c.node)).filter fun f => faceVisible g c f != some true
     let rep := replace g c
     let ex : Expect := ⟨r.node, rep.1 == .ok, rowsT rep.2.2.tets.valid, rowsR rep.2.2.tris.valid, rowsE rep.2.2.edgs.valid⟩
-    if !ledger then (s!"bad begin {tag}: conformity ledger not balanced", some ex) else
+    if !ledger then (s!"bad begin {tag}: certificate certOk fails (ledgerOkAt = {b01 (ledgerOkAt g c)})", some ex) else
     match notVis with
     | f :: _ => (s!"bad begin {tag}: new tet on face {f.n0},{f.n1},{f.n2} has volume <= min_volume", some ex)
     | [] =>
